@@ -104,6 +104,11 @@ func conc(c *Ctx) {
 		cfg.MaxSize = []int64{12288, 16384, 20480, 8192}[r.Intn(4)]
 	}
 	s.Policy = drawPolicy(r)
+	if ow && r.Chance(1, 2) {
+		// overwrites race readers hardest when replaced files disappear at
+		// once and requests are preempted at every opportunity
+		s.Policy = sim.Policy{Sticky: 0, RemoverFirst: true}
+	}
 	c.Logf("cfg %+v policy %+v", cfg, s.Policy)
 	dir := c.Dir("f")
 	var n *world.Node
